@@ -9,6 +9,8 @@ import FuraxModel.Toeplitz
 import FuraxModel.Axes
 import FuraxModel.Landscape
 import FuraxModel.Config
+import FuraxModel.Index
+import FuraxModel.Einsum
 namespace Furax
 open SExp
 
@@ -161,10 +163,48 @@ def handleConfig (cmd : String) (args : List SExp) : Option SExp :=
     some (list (atom "ok" :: obs.map encObs))
   | _ => none
 
+/-- `(index-positions (shape) (idx…))`, `(indexed-axes (idx…))`, `(index-ctor (idx…) hasOut given)`,
+`(coverage-rule n (index…))`, `(scatter-add n (pos…) (y…))` -/
+def handleIndex (cmd : String) (args : List SExp) : Option SExp :=
+  match cmd, args with
+  | "index-positions", [sh, idx] => do
+    let entries ← idx.list?.bind (·.mapM decIdx)
+    match Index.indexPositions (← sh.nats?) entries with
+    | .ok (os, pos) => some (list [atom "ok", ofNats os, ofNats pos])
+    | .error e => some (replyErr e)
+  | "indexed-axes", [idx] => do
+    let entries ← idx.list?.bind (·.mapM decIdx)
+    some (list [atom "ok", ofInts (indexedAxes entries)])
+  | "index-ctor", [idx, hasOut, given] => do
+    let entries ← idx.list?.bind (·.mapM decIdx)
+    let g ← match given with | atom "N" => some none | e => e.bool?.map some
+    match Index.indexCtor entries (← hasOut.bool?) with
+    | .ok _ => some (list [atom "ok", ofBool (Index.uniqueFlag entries g)])
+    | .error e => some (replyErr e)
+  | "coverage-rule", [n, idx] => do
+    some (list [atom "ok", ofNats (ruleCoverage (← n.nat?) (← idx.ints?))])
+  | "scatter-add", [n, pos, y] => do
+    some (list [atom "ok", ofRats (Index.scatterAdd (← n.nat?) (← pos.nats?) (← y.rats?))])
+  | _, _ => none
+
+/-- `(einsum-transpose SUBSCRIPTS)`, `(einsum-parse SUBSCRIPTS)` -/
+def handleEinsum (cmd : String) (args : List SExp) : Option SExp :=
+  match cmd, args with
+  | "einsum-transpose", [atom s] =>
+    match Einsum.transposedSubscripts s with
+    | .ok t => some (list [atom "ok", atom t])
+    | .error e => some (replyErr e)
+  | "einsum-parse", [atom s] =>
+    match Einsum.parseSubscripts s with
+    | .ok (l, r, o) => some (list [atom "ok", atom (if l == "" then "_" else l), atom (if r == "" then "_" else r),
+                                   atom (if o == "" then "_" else o)])
+    | .error e => some (replyErr e)
+  | _, _ => none
+
 def handle (line : String) : String :=
   match SExp.parse line with
   | some (list (atom cmd :: args)) =>
-    match ((handleLevelA cmd args).orElse (fun _ => handleStokes cmd args)).orElse (fun _ => handleToeplitz cmd args) |>.orElse (fun _ => handleAxes cmd args) |>.orElse (fun _ => handleLandscape cmd args) |>.orElse (fun _ => handleConfig cmd args) with
+    match ((handleLevelA cmd args).orElse (fun _ => handleStokes cmd args)).orElse (fun _ => handleToeplitz cmd args) |>.orElse (fun _ => handleAxes cmd args) |>.orElse (fun _ => handleLandscape cmd args) |>.orElse (fun _ => handleConfig cmd args) |>.orElse (fun _ => handleIndex cmd args) |>.orElse (fun _ => handleEinsum cmd args) with
     | some r => r.toStr
     | none => "(bad-request)"
   | _ => "(bad-request)"
